@@ -37,7 +37,7 @@ extern char *libconfig_strdup(const char *s);
 #define __zero(P) memset((void *)(P), 0, sizeof(*P))
 
 extern long long libconfig_parse_integer(const char *s, int *ok);
-extern unsigned long long libconfig_parse_hex64(const char *s);
+extern unsigned long long libconfig_parse_hex64(const char *s, int *ok);
 
 extern void libconfig_format_double(double val, int precision, int sci_ok,
                                     char *buf, size_t buflen);
